@@ -50,8 +50,8 @@ Proof.
 Qed.
 
 (** the former witness of finding 2: the group with the foreign wrapper is refused, the pool
-    stays empty and the other account's own transaction is admitted; the honestly built
-    wrapper of the same group is admitted and is acceptable *)
+    stays empty and the other account's own transaction is let in; the honestly built
+    wrapper of the same group is let in and is acceptable *)
 Lemma wrapper_witness_rejected :
   let c := wcfg false 100000 1 in
   pipeline c [] (STx w_wrap) = (R_MALFORMED, [])
